@@ -10,6 +10,7 @@ import NeumannModel.Paths.Model
     pathold <s> <t> <nodeconds> <edgeconds>   -> same, with the pre-fix neighbour rule
     allpaths <s> <t>                          -> ok <hops> <count> <n.n/e;...> | none | nonode <id>
     wpath <s> <t>                             -> ok <cost> n=<ids> e=<ids> | none | neg <edge id> | nonode <id>
+    astar <s> <t> <out|in|both>               -> ok <cost> | none      (zero heuristic; cost only)
     trav <s> <out|in|both> <maxdepth> <etype|-> <nodeconds> <edgeconds> -> ok <sorted ids> | nonode <id>
     vpaths <s> <t> <min> <max> <out|in|both> <etypes|-> <cycles 0|1> <nodeconds> <edgeconds>
                                               -> ok <count> <n.n.n/e.e;...> | nonode <id>
@@ -91,6 +92,11 @@ def pathsStep (g : Graph) (line : String) : Graph × String :=
           | .ok p => (g, s!"ok {p.total} n={showNats p.nodes} e={showNats p.edges}")
           | .error e => (g, showErr e))
       | _, _ => bad
+  | ["astar", s, t, d] => match s.toNat?, t.toNat?, parseDir d with
+      | some s, some t, some d => (match astarCost g d s t with
+          | some c => (g, s!"ok {c}")
+          | none => (g, "none"))
+      | _, _, _ => bad
   | ["trav", s, d, md, et, nc, ec] =>
       match s.toNat?, parseDir d, md.toNat?, parseOptNat et, parseConds nc, parseConds ec with
       | some s, some d, some md, some et, some nc, some ec =>
